@@ -891,4 +891,318 @@ example : (T.trackNewT Gen.Sem.trackNew erroredPinState (pinCid 0) .pin .queued)
 example : T.statusT Gen.Sem.trackerStatus .unpin .inProgress = some .unpinning := by decide
 example : T.recT Gen.Sem.recoverWith .unexpectedlyUnpinned true true = some (some (.pin, true)) := by decide
 
+/-! ### round 8c: the tracker's ENTRY POINTS as regenerated tables — `enqueue`, `Track` (kind decision), `Untrack`, `Recover` were
+    text-snapshot only. -/
+
+/-- `Tracker.enqueue` (nil when `TrackNewOperation` answers nil / channel chosen by the type / non-blocking send, or `ErrFullQueue`
+    with `SetError; Cancel` when the channel has no room): the regenerated table, executed, is the model's `enqueue` — every
+    configuration, state, pin, for both types that reach it. -/
+theorem gen_table_enqueue (cfg : Cfg) (s : State) (p : PinSpec) (typ : OpType) (ht : typ ≠ .remote) :
+    T.enqueueT Gen.Sem.enqueue cfg s p typ = some (enqueue cfg s p typ) := T.enqueueT_eq cfg s p typ ht
+
+/-- `Tracker.Track`'s kind decision for EVERY pin: meta ↦ nothing; remote for this peer ↦ `TrackNewOperation(remote, in-progress)`, nil if
+    ongoing, else the synchronous unpin call is issued; allocated here ↦ `enqueue(pin)`. The table executed up to the call is `track`,
+    whatever the call will answer (`e`). -/
+theorem gen_table_track (cfg : Cfg) (s : State) (p : PinSpec) (e : Bool) :
+    T.trackT Gen.Sem.track cfg s p e = some (track cfg s p) := T.trackT_eq cfg s p e
+
+/-- ... and after the synchronous call answered: error ↦ `Cancel; SetError`, no `Clean` (= the operation record `retErr` writes, the entry
+    stays: status unpin-side error); nil ↦ `Cancel; SetPhase(Done); Clean` (= `retOk`). -/
+theorem gen_table_track_sync (s : State) (i : Nat) (k : Call) (hf : findCall s i = some k) (hc : (s.ops i).cancelled = false) :
+    (retErr s i).ops i = T.runOp (T.trackAfter Gen.Sem.track false) (s.ops i) ∧ (retErr s i).cur = s.cur ∧
+    (T.trackAfter Gen.Sem.track false).contains .clean = false ∧
+    (k.eff = true → (retOk s i).ops i = T.runOp (T.trackAfter Gen.Sem.track true) (s.ops i) ∧ (retOk s i).cur = (T.cleanM s i).cur) ∧
+    (T.trackAfter Gen.Sem.track true).contains .clean = true := by
+  refine ⟨?_, (T.retErr_is_table s i k hf hc).2, T.track_after_err.2, ?_, T.track_after_ok.2⟩
+  · rw [(T.retErr_is_table s i k hf hc).1, T.apply_err.2, T.track_after_err.1]
+  · intro he
+    refine ⟨?_, (T.retOk_is_table s i k false hf hc he).2⟩
+    rw [(T.retOk_is_table s i k false hf hc he).1, (T.apply_ok false).2, T.track_after_ok.1]
+
+/-- `Untrack(c)` is `enqueue(api.PinCid(c), unpin)` and nothing else. -/
+theorem gen_table_untrack (env : T.Atom → Bool) (cfg : Cfg) (s : State) (c : Nat) :
+    T.firstRow Gen.Sem.untrack env = some [.retEnqueueUnpinCid] ∧
+    untrack cfg s c = enqueue cfg { s with shared := upd s.shared c none, failed := upd s.failed c false } (pinCid c) .unpin :=
+  ⟨rfl, rfl⟩
+
+/-- `Recover(c)` hands `recoverWithPinInfo` the table entry's status when there is one, else `Status(c)`: the model's `recover`. -/
+theorem gen_table_recover (cfg : Cfg) (s : State) (c : Nat) :
+    T.recoverT Gen.Sem.recover cfg s c = some (recover cfg s c) := T.recoverT_eq cfg s c
+
+/-- `Tracker.Status(c)` — the function every clause reads — as a regenerated decision tree (table entry / state unreadable / not in the
+    pinset / meta / remote / `PinLsCid` failed / daemon says unpinned / else the daemon's status): executed on ANY model state, with the
+    daemon's reads working or not, it is the model's `statusR` (= `statusOf` when they work). -/
+theorem gen_table_status (s : State) (ls : Bool) (c : Nat) :
+    T.statusTbl Gen.Sem.status s ls c = some (statusR s ls c) ∧ T.statusTbl Gen.Sem.status s true c = some (statusOf s c) := by
+  refine ⟨T.statusTbl_eq s ls c, ?_⟩
+  rw [T.statusTbl_eq, statusR_true]
+
+/-- ... and when the shared state cannot be read (outside the model's runs) a cid without table entry reads cluster_error — an error
+    status, never a healthy one; `addError` is `Status := cluster_error`. -/
+theorem gen_table_status_stateErr (s : State) (ls : Bool) (c : Nat) (a b : Bool) (h : s.cur c = none) (hab : (a && b) = false)
+    (hp : ∃ p, s.shared c = some p) (env : T.Atom → Bool) :
+    T.statusTbl Gen.Sem.status s ls c a b = some .clusterError ∧
+    T.firstRow Gen.Sem.addError env = some [.setStatus .clusterError, .retVoid] :=
+  ⟨T.statusTbl_stateErr s ls c a b h hab hp, T.addError_table env⟩
+
+/-- `RecoverAll`: a failed listing is RETURNED as an error without entering the loop (fix aa42f84), else the loop and `resp, nil`; the loop
+    with the regenerated body — `recoverWithPinInfo` on the listed entry, leave with the error at the first one that fails, else next —
+    is the model's `raLoop`, for every listing (stale or not), state and activity in between. -/
+theorem gen_table_recoverAll (cfg : Cfg) (L : Nat → Option Status) (s : State) (items : List (List Ev × Nat)) :
+    T.raLoopT Gen.Sem.recoverAllBody cfg L s items = some (raLoop cfg L s items) ∧
+    T.firstRow Gen.Sem.recoverAll (T.envErr false) = some [.listAll, .retErr] ∧
+    T.firstRow Gen.Sem.recoverAll (T.envErr true) = some [.listAll, .forEach, .retNil] :=
+  ⟨T.raLoopT_eq cfg L items s, T.recoverAll_outer.1, T.recoverAll_outer.2⟩
+
+/-- `localStatus` — the listing `StatusAll` and `RecoverAll` start from — per pin of the pinset: meta ↦ sharded, remote ↦ remote, present among
+    the daemon's pins OF THE PIN'S OWN MODE ↦ the daemon's entry, else unexpectedly_unpinned: for a cid without table entry that is the
+    model's `statusAllOf`, on every state; meta / remote entries are left out without `incExtra` or when the filter does not match. -/
+theorem gen_table_localStatus (s : State) (c : Nat) (p : PinSpec) (hc : s.cur c = none) (hs : s.shared c = some p)
+    (k : Kind) (b : Bool) (fm : Status → Bool) (hk : k ≠ .here) :
+    T.localT Gen.Sem.localBody p.kind (heldAs s c p.mode) true (fun _ => true) = some (statusAllOf s c) ∧
+    T.localT Gen.Sem.localBody k b false fm = some none ∧ T.localT Gen.Sem.localBody k b true (fun _ => false) = some none :=
+  ⟨T.localT_eq s c p hc hs, (T.localT_skips k b fm hk).1, (T.localT_skips k b fm hk).2⟩
+
+/-- `statusAll(ctx, TrackerStatusUndefined)` — what `RecoverAll` walks: `localStatus` (extras included), THEN the operation table laid over it, THEN the
+    filter; a failed `localStatus` lists nothing. Per cid that is the model's `listingR` (= `statusAllOf` when the daemon's reads work), on every state. -/
+theorem gen_table_statusAll (s : State) (ls : Bool) (c : Nat) :
+    T.statusAllT Gen.Sem.statusAll Gen.Sem.statusAllOverlay Gen.Sem.statusAllFilter s ls (fun _ => true) c = some (listingR s ls c) :=
+  T.statusAllT_eq s ls c
+
+theorem gen_table_known_c :
+    (T.known Gen.Sem.enqueue && T.known Gen.Sem.track && T.known Gen.Sem.untrack && T.known Gen.Sem.recover &&
+     T.known Gen.Sem.status && T.known Gen.Sem.addError && T.known Gen.Sem.recoverAll && T.known Gen.Sem.recoverAllBody &&
+     T.known Gen.Sem.localBody && T.known Gen.Sem.statusAll && T.known Gen.Sem.statusAllOverlay && T.known Gen.Sem.statusAllFilter) = true :=
+  T.tables_known_c
+
+example : T.statusAllT Gen.Sem.statusAll Gen.Sem.statusAllOverlay Gen.Sem.statusAllFilter k06Run true (fun _ => true) 0
+    = some (some .unexpectedlyUnpinned) := by decide
+example : T.statusAllT Gen.Sem.statusAll Gen.Sem.statusAllOverlay Gen.Sem.statusAllFilter k06Run true (fun st => st == .pinned) 0
+    = some none := by decide
+
+example : T.localT Gen.Sem.localBody .here false true (fun _ => true) = some (some .unexpectedlyUnpinned) := by decide
+
+example : T.statusTbl Gen.Sem.status k06Run true 0 = some .pinError := by decide
+example : T.statusTbl Gen.Sem.status k06Run false 0 = some .clusterError := by decide
+
+/-- a realistic wrong edit of `enqueue` as a table: the full-queue branch returns `ErrFullQueue` but does not `SetError` (the refused
+    operation stays `pin_queued` for ever — `full_queue_reported` fails). It is NOT `enqueue`: queue size 0, first Track. -/
+def noSetErrorTable : T.Table := [
+  { lits := [(.opNil, true)], acts := [.trackNewQ, .retNil] },
+  { lits := [(.opNil, false), (.typIs .pin, true), (.sendOk, true)], acts := [.trackNewQ, .chPin, .send, .retNil] },
+  { lits := [(.opNil, false), (.typIs .pin, true), (.sendOk, false)], acts := [.trackNewQ, .chPin, .errFull, .cancel, .retErr] },
+  { lits := [(.opNil, false), (.typIs .unpin, true), (.sendOk, true)], acts := [.trackNewQ, .chUnpin, .send, .retNil] },
+  { lits := [(.opNil, false), (.typIs .unpin, true), (.sendOk, false)], acts := [.trackNewQ, .chUnpin, .errFull, .cancel, .retErr] } ]
+
+def herePin0 : PinSpec := { cid := 0, kind := .here, mode := .recursive, tag := 1 }
+
+theorem enqueue_without_setError_refuted :
+    ¬ (∀ cfg s p typ, typ ≠ .remote → T.enqueueT noSetErrorTable cfg s p typ = some (enqueue cfg s p typ)) := by
+  intro h
+  have h1 := h { cap := 0, workers := 1, ncids := 1 } init herePin0 .pin (by decide)
+  have h2 : (T.enqueueT noSetErrorTable { cap := 0, workers := 1, ncids := 1 } init herePin0 .pin).map (fun r => statusOf r.1 0)
+      = some .pinQueued := by decide
+  have h3 : (some (enqueue { cap := 0, workers := 1, ncids := 1 } init herePin0 .pin)).map (fun r => statusOf r.1 0)
+      = some .pinError := by decide
+  rw [h1] at h2; rw [h2] at h3; exact absurd h3 (by decide)
+
+/-- the other wrong edit: the channel is chosen with the cases swapped (a pin sent to the unpin worker) -/
+def swappedChanTable : T.Table := [
+  { lits := [(.opNil, true)], acts := [.trackNewQ, .retNil] },
+  { lits := [(.opNil, false), (.typIs .pin, true), (.sendOk, true)], acts := [.trackNewQ, .chUnpin, .send, .retNil] },
+  { lits := [(.opNil, false), (.typIs .pin, true), (.sendOk, false)], acts := [.trackNewQ, .chUnpin, .errFull, .setError, .cancel, .retErr] },
+  { lits := [(.opNil, false), (.typIs .unpin, true), (.sendOk, true)], acts := [.trackNewQ, .chPin, .send, .retNil] },
+  { lits := [(.opNil, false), (.typIs .unpin, true), (.sendOk, false)], acts := [.trackNewQ, .chPin, .errFull, .setError, .cancel, .retErr] } ]
+
+theorem enqueue_swapped_channel_refuted :
+    ¬ (∀ cfg s p typ, typ ≠ .remote → T.enqueueT swappedChanTable cfg s p typ = some (enqueue cfg s p typ)) := by
+  intro h
+  have h1 := h { cap := 1, workers := 1, ncids := 1 } init herePin0 .pin (by decide)
+  have h2 : (T.enqueueT swappedChanTable { cap := 1, workers := 1, ncids := 1 } init herePin0 .pin).map (fun r => r.1.pinQ) = some [] := by decide
+  have h3 : (some (enqueue { cap := 1, workers := 1, ncids := 1 } init herePin0 .pin)).map (fun r => r.1.pinQ) = some [0] := by decide
+  rw [h1] at h2; rw [h2] at h3; exact absurd h3 (by decide)
+
+example : (T.enqueueT Gen.Sem.enqueue { cap := 0, workers := 1, ncids := 1 } init herePin0 .pin).map (fun r => (r.2, statusOf r.1 0))
+    = some (.full, .pinError) := by decide
+example : (T.enqueueT Gen.Sem.enqueue { cap := 1, workers := 1, ncids := 1 } init herePin0 .pin).map (fun r => (r.2, r.1.pinQ, statusOf r.1 0))
+    = some (.nil, [0], .pinQueued) := by decide
+example : (T.trackT Gen.Sem.track { cap := 1, workers := 1, ncids := 1 } init (pinCid 0) true).map (fun r => (r.1.calls.length, statusOf r.1 0))
+    = some (1, .remote) := by decide
+example : (T.trackT Gen.Sem.track { cap := 1, workers := 1, ncids := 1 } init { herePin0 with kind := .sharded } true).map
+    (fun r => (r.1.calls.length, statusOf r.1 0)) = some (0, .sharded) := by decide
+example : T.recoverT Gen.Sem.recover { cap := 1, workers := 1, ncids := 1 } erroredPinState 0
+    = some (recover { cap := 1, workers := 1, ncids := 1 } erroredPinState 0) := gen_table_recover _ _ _
+
+/-! ### round 8c, direction 2: OTHER overlaps than Recover × Untrack — `Track` overlapping `Recover` / `RecoverAll`, and `StatusAll`
+    (pinset read, then `PinLs`, then the operation table) overlapping a worker's completion. Harmless, with proofs; the one way an
+    overlapping Track IS undone for a while (stale unpin_error) ends in an error status and is repaired by the next round. -/
+
+/-- a switch acting on a STALE status that calls for a pin re-issues the pin the pinset records NOW (the pin is read at switch time) -/
+theorem stale_pin_switch_uses_current_pin (cfg : Cfg) (s : State) (c : Nat) (p : PinSpec) (st : Status)
+    (hs : s.shared c = some p) (ha : recAction st = some .pin) : recoverWith cfg s c st = enqueue cfg s p .pin := by
+  cases st <;> simp [recAction] at ha <;> simp [recoverWith, recPin, hs]
+
+theorem trackNew_again (s : State) (p : PinSpec) (typ : OpType) :
+    trackNew (trackNew s p typ .queued).1 p typ .queued = ((trackNew s p typ .queued).1, none) := by
+  unfold trackNew
+  cases h : s.cur p.cid with
+  | none => simp [newOp, upd]
+  | some i =>
+    by_cases hg : (s.ops i).typ = typ ∧ (s.ops i).phase ≠ .error ∧ (s.ops i).phase ≠ .done
+    · simp [hg, h]
+    · simp [hg, newOp, cancelOp, upd]
+
+/-- `Track(p)` (allocated here) overlapping a `Recover` / `RecoverAll` whose status read came first: while the Track has done its
+    `TrackNewOperation` (even before its channel send), the stale switch — any status that calls for a pin — changes NOTHING: it is
+    deduplicated against the Track's operation, no second operation, no second send. For every configuration and state of the interleaved system. -/
+theorem track_overlapping_recover_harmless (cfg : Cfg) (t : StateC) (p : PinSpec) (k : Nat) (st : Status)
+    (hk : p.kind = .here) (hr : (stepC cfg t (.trackBegin p)).reads[k]? = some (p.cid, st)) (ha : recAction st = some .pin) :
+    (stepC cfg (stepC cfg t (.trackBegin p)) (.recSwitch k)).s = (stepC cfg t (.trackBegin p)).s ∧
+    (stepC cfg (stepC cfg t (.trackBegin p)) (.recSwitch k)).sends = (stepC cfg t (.trackBegin p)).sends := by
+  have hsh : (stepC cfg t (.trackBegin p)).s =
+      (trackNew { t.s with shared := upd t.s.shared p.cid (some p), failed := upd t.s.failed p.cid false } p .pin .queued).1 := by
+    simp only [stepC, hk, if_true, pushSend, enqBegin]
+    split <;> rfl
+  have hrec : recPin (stepC cfg t (.trackBegin p)).s p.cid = p := by
+    rw [hsh]; simp [recPin, trackNew_shared, upd]
+  have hdup : enqBegin (stepC cfg t (.trackBegin p)).s p .pin = ((stepC cfg t (.trackBegin p)).s, none) := by
+    rw [hsh]; exact trackNew_again _ p .pin
+  generalize stepC cfg t (.trackBegin p) = t' at *
+  simp [stepC, hr, ha, hrec, hdup, pushSend]
+
+theorem enqueue_pin_again (cfg : Cfg) (s : State) (p : PinSpec) (hn : (enqueue cfg s p .pin).2 = .nil) :
+    enqueue cfg (enqueue cfg s p .pin).1 p .pin = ((enqueue cfg s p .pin).1, .nil) := by
+  have h2 := trackNew_again s p .pin
+  unfold enqueue at hn ⊢
+  rcases h : trackNew s p .pin .queued with ⟨s1, o⟩
+  rw [h] at hn h2
+  cases o with
+  | none => simp only [] at h2 ⊢; simp [h2]
+  | some i =>
+    simp only [] at hn h2 ⊢
+    by_cases hq : s1.pinQ.length < cfg.cap
+    · simp only [hq, if_true] at hn ⊢
+      have h3 : trackNew { s1 with pinQ := s1.pinQ ++ [i] } p .pin .queued = ({ s1 with pinQ := s1.pinQ ++ [i] }, none) := by
+        have := h2
+        unfold trackNew at this ⊢
+        revert this
+        cases s1.cur p.cid with
+        | none => simp [newOp]
+        | some j =>
+          by_cases hg : (s1.ops j).typ = .pin ∧ (s1.ops j).phase ≠ .error ∧ (s1.ops j).phase ≠ .done
+          · simp [hg]
+          · simp [hg, newOp, cancelOp]
+      simp [h3]
+    · simp [hq] at hn
+
+/-- the base-model reading: right after a `Track(p)` that returned nil, a switch on a stale pin-calling status is a no-op -/
+theorem stale_pin_switch_after_track_noop (cfg : Cfg) (s0 : State) (p : PinSpec) (st : Status)
+    (hk : p.kind = .here) (hn : (track cfg s0 p).2 = .nil) (ha : recAction st = some .pin) :
+    recoverWith cfg (track cfg s0 p).1 p.cid st = ((track cfg s0 p).1, .nil) := by
+  have hs : (track cfg s0 p).1.shared p.cid = some p := by
+    rw [track_shared]; simp [upd]
+  rw [stale_pin_switch_uses_current_pin cfg _ _ p st hs ha]
+  have ht : track cfg s0 p = enqueue cfg { s0 with shared := upd s0.shared p.cid (some p), failed := upd s0.failed p.cid false } p .pin := by
+    simp [track, hk]
+  rw [ht] at hn ⊢
+  exact enqueue_pin_again cfg _ p hn
+
+example : (stepC k06Cfg { initC with reads := [(0, .unexpectedlyUnpinned)] } (.trackBegin (k06Pin .direct))).reads[0]?
+    = some ((k06Pin .direct).cid, .unexpectedlyUnpinned) := by decide
+
+/-- the overlap that DOES undo a Track for a while: `Recover(c)` reads unpin_error (a failed Untrack), `Track(c)` runs to completion (the
+    daemon pins c), then the switch acts on the stale unpin_error and un-pins c again. The end is quiescent with the pinset holding c
+    and the daemon not — but `Status` = pin_error (an error status: the first sentence holds), and the next recover round re-pins c. -/
+theorem stale_unpin_switch_after_track_is_error_status_and_heals :
+    let t := runC k06Cfg initC [.untrackBegin 0, .send 0, .base .deqUnpin, .base (.retErr 0), .recRead 0,
+      .trackBegin (k06Pin .direct), .send 0, .base .deqPin, .base (.effect 1), .base (.retOk 1),
+      .recSwitch 0, .send 0, .base .deqUnpin, .base (.effect 2), .base (.retOk 2)]
+    let s2 := run k06Cfg t.s [.recover 0, .deqPin, .effect 3, .retOk 3]
+    t.sends = [] ∧ t.reads = [] ∧ quiescent 1 (observe t.s) = true ∧ t.s.shared 0 = some (k06Pin .direct) ∧ t.s.daemon 0 = none ∧
+    statusOf t.s 0 = .pinError ∧ matchOrError (observe t.s) 0 = true ∧
+    quiescent 1 (observe s2) = true ∧ s2.daemon 0 = some (.direct, 1) ∧ daemonMatches (observe s2) 0 = true := by
+  decide
+
+/-- `StatusAll` is three reads: the pinset and the daemon's pins (`localStatus`) first, the operation table (`GetAll`) last. A listing
+    torn between states `s1` (pinset, daemon) and `s2` (table): -/
+def tornListing (s1 s2 : State) (c : Nat) : Option Status :=
+  match s2.cur c with
+  | some i => some (opStatus (s2.ops i))
+  | none => statusAllOf { s1 with cur := fun _ => none } c
+
+/-- a worker completing a pin between the two reads makes the listing say unexpectedly_unpinned for a cid that is pinned (neither state
+    lists that); a `RecoverAll` on the torn listing re-pins the RECORDED pin: quiescent again, the daemon matches, status pinned. -/
+theorem torn_statusAll_repin_harmless :
+    let s1 := run k06Cfg init [.track (k06Pin .direct), .deqPin]
+    let s2 := run k06Cfg s1 [.effect 0, .retOk 0]
+    let s3 := run k06Cfg (raLoop k06Cfg (tornListing s1 s2) s2 [([], 0)]).1 [.deqPin, .effect 1, .retOk 1]
+    statusAllOf s1 0 = some .pinning ∧ statusAllOf s2 0 = some .pinned ∧ tornListing s1 s2 0 = some .unexpectedlyUnpinned ∧
+    quiescent 1 (observe s3) = true ∧ s3.daemon 0 = some (.direct, 1) ∧ statusOf s3 0 = .pinned ∧ daemonMatches (observe s3) 0 = true := by
+  decide
+
+/-- ... and for ALL states: whatever a torn (or otherwise stale) listing says about a cid the pinset records as `p`, if it calls for a
+    pin the loop's entry is `enqueue(p, pin)` — the same instruction a `Track(p)` issues; its effect on the daemon is `p`'s mode. -/
+theorem torn_listing_entry_is_track (cfg : Cfg) (s1 s2 : State) (c : Nat) (p : PinSpec) (st : Status)
+    (hl : tornListing s1 s2 c = some st) (hs : s2.shared c = some p) (ha : recAction st = some .pin) :
+    raLoop cfg (tornListing s1 s2) s2 [([], c)] = enqueue cfg s2 p .pin := by
+  simp only [raLoop, run, List.foldl, hl, stale_pin_switch_uses_current_pin cfg s2 c p st hs ha]
+  rcases h : enqueue cfg s2 p .pin with ⟨a, b⟩
+  cases b <;> simp
+
+/-! ### round 8c, direction 5: the last clause (`full_queue_reported`) over WHOLE histories, for every pin kind -/
+
+/-- `Track` of ANY pin — meta (never tracked), remote for this peer (synchronous unpin path), allocated here — satisfies `reported` on the
+    model's own frame, from every state. -/
+theorem full_queue_reported_track_any (cfg : Cfg) (n : Nat) (s : State) (p : PinSpec) :
+    reported n { act := .track p, ret := toRetCode (track cfg s p).2, infos := [], obs := observe (track cfg s p).1 } = true := by
+  cases hk : p.kind with
+  | here => exact full_queue_reported_track cfg n s p hk
+  | sharded => simp [reported, instrOf, hk, track, toRetCode]
+  | remote =>
+    simp only [reported, instrOf, hk, track, observe, statusOf]
+    generalize ({ s with shared := upd s.shared p.cid (some p), failed := if Kind.remote = Kind.here then upd s.failed p.cid false else s.failed } : State) = s1
+    unfold trackNew
+    cases h : s1.cur p.cid with
+    | none => simp [newOp, upd, toRetCode, opStatus]
+    | some i =>
+      by_cases hg : (s1.ops i).typ = .remote ∧ (s1.ops i).phase ≠ .error ∧ (s1.ops i).phase ≠ .done
+      · simp [hg, h, toRetCode, opStatus]
+      · simp [hg, newOp, cancelOp, upd, toRetCode, opStatus]
+
+/-- the frame of an instruction of a history, as the clause reads it (none for worker / daemon events) -/
+def instrFrame (cfg : Cfg) (s : State) : Ev → Option Frame
+  | .track p => some { act := .track p, ret := toRetCode (track cfg s p).2, infos := [], obs := observe (track cfg s p).1 }
+  | .untrack c => some { act := .untrack c, ret := toRetCode (untrack cfg s c).2, infos := [], obs := observe (untrack cfg s c).1 }
+  | .recover c => some { act := .recover c, ret := toRetCode (recover cfg s c).2, infos := [], obs := observe (recover cfg s c).1 }
+  | _ => none
+
+def instrFrames (cfg : Cfg) : State → List Ev → List Frame
+  | _, [] => []
+  | s, e :: es => (instrFrame cfg s e).toList ++ instrFrames cfg (step cfg s e) es
+
+theorem instrFrames_reported (cfg : Cfg) (n : Nat) (es : List Ev) : ∀ s, Reachable cfg s → (instrFrames cfg s es).all (reported n) = true := by
+  induction es with
+  | nil => intro s _; rfl
+  | cons e es ih =>
+    intro s hr
+    have hrest := ih (step cfg s e) (.step e hr)
+    simp only [instrFrames, List.all_append, hrest, Bool.and_true]
+    cases e <;> simp only [instrFrame, Option.toList, List.all_cons, List.all_nil, Bool.and_true]
+    · exact full_queue_reported_track_any cfg n s _
+    · exact full_queue_reported_untrack cfg n s _
+    · exact full_queue_reported_recover cfg n s _ hr
+
+/-- For EVERY history of instructions, worker steps, daemon effects / answers / errors and lost pins, from the initial state: EVERY instruction
+    of it satisfies the last clause (`full_queue_reported` of `Spec.clauses`, as the driver evaluates it) on the observation at its return —
+    nil ⇒ queued / in progress (or remote / not tracked), ErrFullQueue ⇒ an error status. (Composition of the per-instruction theorems; the
+    observation is the one at the instruction's return, before the workers move on.) -/
+theorem history_full_queue_reported (cfg : Cfg) (n : Nat) (es : List Ev) :
+    (instrFrames cfg init es).all (reported n) = true := instrFrames_reported cfg n es init .init
+
+example : ((instrFrames k06Cfg init [.track (k06Pin .direct), .track { cid := 0, kind := .here, mode := .recursive, tag := 2 }, .deqPin,
+    .untrack 0, .track (pinCid 0), .recover 0]).map (fun f => (f.ret, f.obs.status 0))) =
+    [(.nil, .pinQueued), (.nil, .pinQueued), (.nil, .unpinQueued), (.nil, .remote), (.nil, .remote)] := by decide
+example : ((instrFrames { cap := 0, workers := 1, ncids := 1 } init [.track (k06Pin .direct), .recover 0]).map (fun f => (f.ret, f.obs.status 0))) =
+    [(.full, .pinError), (.full, .pinError)] := by decide
+
 end CV.C05
